@@ -55,3 +55,29 @@ theorem C18_timeout_is_enabled_at_the_deadline (w : World) (x : Nat) (b : BId) (
   simp [guard, checks, Checks.ok, hw, hd]
 
 end Bubus.Thm
+
+namespace Bubus.Thm
+open Bubus
+
+/-- **C03 / C04 (what a return means)**: the completion check sets an event's completion signal only when the whole tree is
+    done at that moment — every handler result of the event terminal and every event dispatched by its handlers,
+    transitively and on any bus, complete. (Awaits return on that signal: `C03_external_await_needs_signal`,
+    `C04_await_returns_signalled_or_gave_up`.) -/
+theorem C03_completion_is_signalled_only_for_a_finished_tree (w : World) (e : EId)
+    (h0 : (w.ev e).signal = false) (h1 : ((markComplete w e).ev e).signal = true) : treeDone w e = true := by
+  unfold markComplete at h1
+  simp only [h0] at h1
+  unfold treeDone
+  by_cases hemp : (w.ev e).results.isEmpty = true
+  · have hnil : (w.ev e).results = [] := by simpa using hemp
+    simp [Ev.allTerminal, hnil]
+    unfold allChildrenComplete
+    simp [Ev.children, hnil]
+  · simp only [hemp] at h1
+    by_cases ht : (w.ev e).allTerminal = true
+    · by_cases hc : allChildrenComplete w (w.ne + 1) e = true
+      · simp [ht, hc]
+      · simp [ht, hc, h0] at h1
+    · simp [ht, h0] at h1
+
+end Bubus.Thm
